@@ -34,6 +34,9 @@ import (
 	"go.opentelemetry.io/collector/service/telemetry"
 )
 
+// vLastCfg: service::extensions of the last vNewService call as configured (indices, with repetitions)
+var vLastCfg []int
+
 func vNewService(rng *vRand, topo vTopo, specs []vExtSpec, hasConf bool) (*vWorld, *Service, error) {
 	w := &vWorld{}
 	rc, pc, ec, cc := topo.componentConfigs()
@@ -47,6 +50,17 @@ func vNewService(rng *vRand, topo vTopo, specs []vExtSpec, hasConf bool) (*vWorl
 		j := rng.Intn(i + 1)
 		xcfg[i], xcfg[j] = xcfg[j], xcfg[i]
 	}
+	var dcfg extensions.Config
+	vLastCfg = nil
+	for _, i := range vDupIdx(rng, len(xcfg)) {
+		dcfg = append(dcfg, xcfg[i])
+		for _, s := range specs {
+			if vExtID(s.idx) == xcfg[i] {
+				vLastCfg = append(vLastCfg, s.idx)
+			}
+		}
+	}
+	xcfg = dcfg
 	set := Settings{
 		BuildInfo:           component.NewDefaultBuildInfo(),
 		ReceiversConfigs:    rc,
@@ -125,6 +139,7 @@ func TestVerifC10Service(t *testing.T) {
 		out.Stat(fmt.Sprintf("has_conf=%v", hasConf), 1)
 		for _, pl := range vPlans(rng, comps, exts, cfgw, pipew, 6) {
 			w, srv, err := vNewService(rng, topo, specs, hasConf)
+			cfgIdx := append([]int{}, vLastCfg...)
 			if err != nil {
 				out.Oracle("harness", "(2, ([], []))", "service.New: "+err.Error())
 				continue
@@ -184,7 +199,7 @@ func TestVerifC10Service(t *testing.T) {
 			}
 			c := &vCase{kind: 2, comps: comps, exts: exts, cfgw: cfgw, pipew: pipew, edges: edges, specEdges: edges,
 				deps: deps, hasConf: hasConf, fxStart: pl.fxStart, fxStop: pl.fxStop, fcStart: pl.fcStart, fcStop: pl.fcStop,
-				fCfg: pl.fCfg, fReady: pl.fReady, fNotReady: pl.fNotReady, log: w.log, cx: pl.cx, ret: w.ret}
+				fCfg: pl.fCfg, fReady: pl.fReady, fNotReady: pl.fNotReady, log: w.log, cx: pl.cx, ret: w.ret, iStart: cfgIdx}
 			c.errs = vErrList(errAll)
 			c.extOrder = vRev(vSeq(w.log[nStart:], tXStop))
 			started := vSeq(w.log[:nStart], tCStart)
@@ -208,6 +223,10 @@ func TestVerifC10Service(t *testing.T) {
 				out.Oracle("start-failure", term, fmt.Sprintf("unexpected error: %v", errAll))
 			}
 			c.oracle(out)
+			vExtInstances(out, term, w)
+			if len(cfgIdx) > len(exts) {
+				out.Stat("extensions-configured-with-repetitions", 1)
+			}
 			out.Case(true, term)
 			stage := "ok"
 			switch {
